@@ -445,10 +445,10 @@ tfpdeftests:
 	}
 |	tfpdeftests ',' tfpdeftest
 	{
+		// keyword only parameters: there is one entry for each
+		// of them, nil if it has no default
 		$$ = append($$, $3)
-		if $<expr>3 != nil {
-			$<exprs>$ = append($<exprs>$, $<expr>3)
-		}
+		$<exprs>$ = append($<exprs>$, $<expr>3)
 	}
 
 tfpdeftests1:
@@ -540,10 +540,10 @@ vfpdeftests:
 	}
 |	vfpdeftests ',' vfpdeftest
 	{
+		// keyword only parameters: there is one entry for each
+		// of them, nil if it has no default
 		$$ = append($$, $3)
-		if $<expr>3 != nil {
-			$<exprs>$ = append($<exprs>$, $<expr>3)
-		}
+		$<exprs>$ = append($<exprs>$, $<expr>3)
 	}
 
 vfpdeftests1:
